@@ -319,6 +319,9 @@ Inductive op :=
 | ODumpOsc (code : Z)
 | ODefSend (nbytes : Z) (c : compl)
 | ODefLoad (cmd : string) (path : string) (c : compl)
+(* play(func / buffer, target, outbus, fade, add_action, args): a temporary definition (def = its generated name) is sent
+   with the creation command of the new Synth object as completion message *)
+| OPlay (nid : Z) (def : string) (nbytes : Z) (outbus : pval) (args : pval) (tg : target) (act : action)
 (* buffers; addr = what the buffer allocator returned (None: it returned None) *)
 | OBufNew (addr : option Z) (frames chans : pval) (bufnum : option Z) (c : compl) (alloc : bool)
 | OBufConsecutive (addr : option Z) (n : nat) (frames chans : pval) (bufnum : option Z) (c : compl)
@@ -541,6 +544,13 @@ Fixpoint pairs_data (a : Z) (l : list (pval * pval)) : option (list pval) :=
 Definition s_new_msg (db : bool) (s : st) (def : string) (id : pval) (actn : Z) (tg : pval) (args : pval) : pmsg :=
   PStr "/s_new" :: PStr def :: id :: PInt actn :: tg :: oal db s (args_or_empty args).
 
+(* play: [*node_param(args)._as_control_input()] -- a list / tuple gives its converted items, a dict its
+   key, value, key, value ...; anything else cannot be spliced *)
+Definition play_elems (s : st) (args : pval) : option (list pval) :=
+  match aci s args with PList r => Some r | PTuple r => Some r | _ => None end.
+Definition play_args (outbus : pval) (r : list pval) : pval :=
+  PList (PStr "_iout" :: outbus :: PStr "out" :: outbus :: r).
+
 (* accessors evaluated by the caller: every as_map() among the arguments is of a bus that still has its index *)
 Fixpoint pv_maps_ok (s : st) (v : pval) : bool :=
   match v with
@@ -553,6 +563,7 @@ Fixpoint pv_maps_ok (s : st) (v : pval) : bool :=
 Definition op_args (o : op) : list pval :=
   match o with
   | OSynth _ _ _ args _ _ => [args]
+  | OPlay _ _ _ ob args _ _ => [ob; args]
   | ONodeSet _ a => a
   | ONodeSetn _ a => a
   | ONodeMap _ _ a => a
@@ -743,6 +754,19 @@ Definition obj_step_core (s : st) (o : op) : res :=
   | ODumpOsc code => ok s [SMsg [PStr "/dumpOSC"; PInt code]]
   | ODefSend nbytes c => ok s [SMsg [PStr "/d_recv"; PBytes nbytes; compl_val c PNone]]
   | ODefLoad cmd path c => ok s [SMsg [PStr cmd; PStr path; compl_val c PNone]]
+  | OPlay nid def nbytes outbus args tg act =>
+    if negb (target_ok s tg) then fail (add_node s None) EOther else
+    match play_elems s args with
+    | None => fail (add_node s None) EOther
+    | Some r =>
+      match action_number act with
+      | None => fail (add_node s None) EOther
+      | Some a =>
+        ok (add_node s (Some (mkNode (PInt nid) NSynth)))
+           [SMsg [PStr "/d_recv"; PBytes nbytes;
+                  PList (s_new_msg (v_dict_brackets V) s def (PInt nid) a (target_id s tg) (play_args outbus r))]]
+      end
+    end
 
   (* ---- buffers ---- *)
   | OBufNew addr frames chans bufnum c alloc =>
